@@ -28,7 +28,8 @@
 
 #define MAXP 512
 #define NMASK 12
-#define NMODE 3 /* 0 plain, 1 fitting(16), 2 counting(8) */
+#define NMODE 6 /* 0 plain, 1 fitting(16), 2 counting(8), 3 fitting(24), 4 fitting(64), 5 fitting(7) */
+static const int FITC[NMODE] = {0, 16, 0, 24, 64, 7}; /* threads pad with DIFFERENT chunk sizes at the same time */
 #define BUFSZ 32768
 
 static FILE *res; /* results go here (the original stdout); stdout itself is /dev/null: the library's debug output lands there */
@@ -104,8 +105,8 @@ static void one(int p, int m, int mode, int internal, uint8_t *buf,
   }
   if (via & 8)
     asm_set_debug(al, true);
-  if (mode == 1)
-    asm_set_chunk_size(al, 16);
+  if (FITC[mode])
+    asm_set_chunk_size(al, (size_t)FITC[mode]);
   if (yields && (rand_r(rs) & 7) == 0) {
     struct timespec ts = {0, 1000 * (rand_r(rs) % 50)};
     nanosleep(&ts, NULL);
